@@ -26,6 +26,25 @@ pub fn base() -> PathBuf {
 /// Remove this process's scratch base (workers leave that to their parent).
 pub fn cleanup_base() {
     if std::env::var("VERIF_SCRATCH_EXACT").is_err() {
+        // servers started by workers that were stopped early (a violation was found elsewhere)
+        // would outlive the check: every server executable serving a directory under this base goes
+        let b = base().to_string_lossy().to_string();
+        if let Ok(rd) = std::fs::read_dir("/proc") {
+            for e in rd.flatten() {
+                let Ok(pid) = e.file_name().to_string_lossy().parse::<i32>() else { continue };
+                if pid == std::process::id() as i32 {
+                    continue;
+                }
+                if let Ok(cmd) = std::fs::read(e.path().join("cmdline")) {
+                    let cmd = String::from_utf8_lossy(&cmd);
+                    if cmd.contains("taskchampion-sync-server") && cmd.contains(&b) {
+                        unsafe {
+                            libc::kill(pid, libc::SIGKILL);
+                        }
+                    }
+                }
+            }
+        }
         let _ = std::fs::remove_dir_all(base());
     }
 }
